@@ -37,3 +37,41 @@ func checksumOf(hrp string, data []byte) []byte {
 	copy(d, data)
 	return bech32Checksum(hrp, d)
 }
+
+func zzIsLowerCharset(x byte) bool {
+	in := false
+	for i := 0; i < len(charset); i++ {
+		in = vOr(in, x == charset[i])
+	}
+	return in
+}
+
+// ZZ_C03_bech32_foreign: substitutions of data characters by anything that is not a lower-case
+// charset symbol (upper case, '1', 'b', 'i', 'o', punctuation, non-ASCII) are rejected.
+func ZZ_C03_bech32_foreign() {
+	hrp := "a"
+	L := vParam("datalen", 20)
+	data := vSyms("data", L, 5)
+	s, err := Encode(hrp, checksumless(data))
+	vAssume(err == nil)
+	chars := []byte(s)
+	off := len(hrp) + 1
+	cnt := 0
+	for i := off; i < len(chars); i++ {
+		use := vBool("use")
+		x := vU8("x")
+		vAssume(vImplies(use, !zzIsLowerCharset(x)))
+		chars[i] = vIte8(use, x, chars[i])
+		cnt += int(vIte8(use, 1, 0))
+	}
+	vAssume(cnt >= 1 && cnt <= 4)
+	vReach("in")
+	_, _, err = Decode(string(chars))
+	vAssert("foreign-substitution-rejected", err != nil)
+}
+
+func checksumless(data []byte) []byte {
+	d := make([]byte, len(data))
+	copy(d, data)
+	return d
+}
